@@ -9,6 +9,7 @@ import (
 	"context"
 	"errors"
 	"fmt"
+	"os"
 	"runtime"
 	"strings"
 	"sync"
@@ -882,8 +883,11 @@ func genProg(seed uint64, o progOpts) *Prog {
 	if o.skipAfter {
 		p.Steps = append(p.Steps, Step{Op: "skipif", Pred: hashPred(r, 2)})
 	}
-	if r.chance(1, 4) {
+	switch r.intn(8) {
+	case 0, 1:
 		p.Depth = 14
+	case 2:
+		p.Depth = 45 // deeper than any fixed small traceback budget
 	}
 	var ds []string
 	for _, s := range p.Steps {
@@ -1107,6 +1111,9 @@ func filteredSmallInt(r *rng) *GX {
 func (p *Prog) body() func(x *X) {
 	return func(x *X) {
 		x.siteDepth = p.Depth
+		if d := os.Getenv("VERIF_DEPTH"); d != "" { // experiments only
+			fmt.Sscan(d, &x.siteDepth)
+		}
 		x.exec(p.Steps)
 	}
 }
